@@ -28,6 +28,41 @@ use aranya_policy_vm::{
 };
 use vh::{fnv, Args, Recorder, Rng};
 
+// ------------------------------------------------------------------ crash attribution
+//
+// A stack overflow / abort in the real code cannot be caught in-process.  `main` therefore runs the
+// work in a child process; every case writes its setup lines to `<out>/current_case.txt` before it
+// runs, and if the child dies the parent re-runs only that case with `C25_TRACE=1` (every request
+// line, I/O answers included, is appended to the side file before it is executed) and reports the
+// crash as an oracle failure whose replay input is that file.
+
+thread_local! {
+    static TRACE: RefCell<Option<(std::path::PathBuf, Vec<String>)>> = const { RefCell::new(None) };
+}
+fn trace_init(path: std::path::PathBuf, lines: Vec<String>) {
+    let _ = std::fs::write(&path, lines.join("\n") + "\n");
+    if std::env::var("C25_TRACE").is_ok() {
+        TRACE.with(|t| *t.borrow_mut() = Some((path, lines)));
+    }
+}
+fn trace_push(line: String) {
+    TRACE.with(|t| {
+        if let Some((p, ls)) = t.borrow_mut().as_mut() {
+            ls.push(line);
+            let _ = std::fs::write(&*p, ls.join("\n") + "\n");
+        }
+    });
+}
+fn trace_replace_last(line: String) {
+    TRACE.with(|t| {
+        if let Some((p, ls)) = t.borrow_mut().as_mut() {
+            ls.pop();
+            ls.push(line);
+            let _ = std::fs::write(&*p, ls.join("\n") + "\n");
+        }
+    });
+}
+
 // ------------------------------------------------------------------ interning
 
 fn ident(k: usize) -> Identifier {
@@ -1460,6 +1495,7 @@ fn run_case(rec: &mut Recorder, setup_lines: &[String], steps: Steps, fdefs: &[(
                 }
             }
         };
+        trace_push(if toks.is_empty() { "step".to_string() } else { format!("step {}", toks.join(" ")) });
         if let Some(c) = codec_token(&machine, &cur_ctx, instr.as_ref(), top.as_ref(), &mut bt, rec) {
             toks.push(c);
         }
@@ -1692,6 +1728,17 @@ fn run_entry_case(rec: &mut Recorder, setup_lines: &[String], entry_toks: &[Stri
                 }
             };
             io_toks.extend(toks.iter().cloned());
+            {
+                let mut l = format!("call {}", entry_toks.join(" "));
+                for g in groups.iter().chain(std::iter::once(&toks)) {
+                    l.push_str(" S");
+                    for t in g {
+                        l.push(' ');
+                        l.push_str(t);
+                    }
+                }
+                trace_replace_last(l);
+            }
             if let Some(c) = codec_token(&machine, &cur_ctx, instr.as_ref(), top.as_ref(), &mut bt, rec) {
                 toks.push(c);
             }
@@ -2015,13 +2062,63 @@ fn check_from_module(rec: &mut Recorder, lines: &[String]) {
     }
 }
 
+/// parent: run the work in a child; attribute an uncatchable crash to its case
+fn supervise(args: &Args) -> ! {
+    let exe = std::env::current_exe().expect("current_exe");
+    let argv: Vec<String> = std::env::args().skip(1).collect();
+    let side = args.out.join("current_case.txt");
+    let _ = std::fs::remove_file(&side);
+    let st = std::process::Command::new(&exe).args(&argv).env("C25_CHILD", "1").status().expect("spawn child");
+    if st.success() {
+        std::process::exit(0);
+    }
+    // the child died: which case?
+    let head = std::fs::read_to_string(&side).unwrap_or_default();
+    let first = head.lines().next().unwrap_or("").to_string();
+    let idx: Option<usize> = first.strip_prefix("case ").and_then(|r| r.split(' ').next()).and_then(|x| x.parse().ok());
+    let mut lines: Vec<String> = head.lines().skip(1).map(|x| x.to_string()).collect();
+    if let (Some(i), None) = (idx, &args.replay) {
+        // re-run only that case, tracing every request line before it is executed
+        let _ = std::process::Command::new(&exe)
+            .args(&argv)
+            .env("C25_CHILD", "1")
+            .env("C25_TRACE", "1")
+            .env("C25_ONLY", i.to_string())
+            .status();
+        let t = std::fs::read_to_string(&side).unwrap_or_default();
+        if t.lines().count() > 1 {
+            lines = t.lines().skip(1).map(|x| x.to_string()).collect();
+        }
+    }
+    let mut rec = Recorder::new(&args.out);
+    rec.begin_case();
+    let what = format!(
+        "HOST CRASH (not a catchable panic): the harness process died with {st} while running {}; stack overflow / abort in the real code",
+        if first.is_empty() { "an unknown case".to_string() } else { first.clone() }
+    );
+    rec.count("outcome:HOST-CRASH");
+    rec.panics.push(what.clone());
+    rec.oracle_fail_with(what, lines);
+    rec.finish(args.seed, &args.tier);
+    std::process::exit(0);
+}
+
 fn main() {
     let args = Args::parse();
     vh::quiet_panics();
+    if std::env::var("C25_CHILD").is_err() {
+        supervise(&args);
+    }
+    let only_case: Option<usize> = std::env::var("C25_ONLY").ok().and_then(|x| x.parse().ok());
     let mut rec = Recorder::new(&args.out);
 
     if let Some(rp) = &args.replay {
         let lines = vh::read_replay_input(rp);
+        {
+            let mut side = vec!["case replay".to_string()];
+            side.extend(lines.iter().cloned());
+            let _ = std::fs::write(args.out.join("current_case.txt"), side.join("\n") + "\n");
+        }
         // split into cases at `new`
         let mut cases: Vec<Vec<String>> = vec![];
         for l in lines {
@@ -2068,6 +2165,21 @@ fn main() {
         }
         if i % 10 == 0 {
             check_from_module(&mut rec, &lines);
+        }
+        if let Some(only) = only_case {
+            if i != only {
+                continue;
+            }
+        }
+        // a crash that cannot be caught (stack overflow, abort) is attributed to its case: the
+        // case's lines are on disk before it runs
+        {
+            let mut side = vec![format!("case {i} seed {}", args.seed)];
+            side.extend(lines.iter().cloned());
+            if let Some(e) = &entry_req {
+                side.push(format!("call {}", e.join(" ")));
+            }
+            trace_init(args.out.join("current_case.txt"), side);
         }
         match entry_req {
             Some(e) => run_entry_case(&mut rec, &lines, &e, Steps::Gen(&mut r, budget), &fdefs),
